@@ -49,9 +49,12 @@ def seed_of(base, i):
 
 
 SWEEP_EVERY = 9
+REPEAT_EVERY = 16
 
 
 def gen(seed, wl, wl_full, full_every):
+    if seed % REPEAT_EVERY == 5:
+        return history.gen_repeat(seed, wl)
     if seed % SWEEP_EVERY == 3:
         return history.gen_sweep(seed, wl, {'sweep_max_atoms': 300})
     if full_every and seed % full_every == 0 and wl_full is not None:
